@@ -62,6 +62,13 @@ func genClosures(r *rand.Rand, id string, tier string) string {
 			ops = append(ops, []string{"fold 1", "fold 0", "clrerr"}[r.Intn(3)])
 		}
 	}
+	if recv.T == 'K' && r.Intn(2) == 0 {
+		// finally release the instance: Free must make the handle zero unless it is read-only, whatever the closures say
+		if r.Intn(4) == 0 {
+			ops = append(ops, "ro 1")
+		}
+		ops = append(ops, "free")
+	}
 	return recv.String() + " | " + strings.Join(ops, " ; ")
 }
 
@@ -107,6 +114,11 @@ func runClosures(payload string) string {
 	outs = append(outs, "init "+obs())
 	for _, op := range strings.Split(parts[1], " ; ") {
 		t := strings.Fields(op)
+		if t[0] == "free" {
+			err := s.Free()
+			outs = append(outs, fmt.Sprintf("free %s Z%s I%s", errTok(err), b01(s.IsZero()), b01(s.IsInit())))
+			break
+		}
 		ret := guard(func() string {
 			var recv reflect.Value
 			if isStack {
@@ -137,6 +149,10 @@ func runClosures(payload string) string {
 			case "fold":
 				if isStack {
 					s.SetFold(t[1] == "1")
+				}
+			case "ro":
+				if isStack {
+					s.SetReadOnly(t[1] == "1")
 				}
 			case "clrerr":
 				if isStack {
